@@ -1,5 +1,5 @@
 #!/usr/bin/env python3
-"""seed_matrix.py [seed-id ...] — for every confirmed seeded change under /verif/seeded, apply patch.diff to a
+"""seed_matrix.py [seed-id | path/to/change.diff ...] — for every confirmed seeded change under /verif/seeded, apply patch.diff to a
 scratch copy of /repo (mktemp, removed afterwards), run every property's quick check on the copy (analysis only,
 nothing is executed) and record which (property, rule, key) report it in meta.json -> static_check.reports.
 Prints the matrix. /repo itself is not touched."""
@@ -21,6 +21,7 @@ LINE = re.compile(r'^  (\S+) \[([A-Z0-9-]+)/([a-z-]+)\] (.*?): ')
 
 def run_seed(sid):
     d = os.path.join(HERE, 'seeded', sid)
+    patch = sid if sid.endswith('.diff') else os.path.join(d, 'patch.diff')
     tmp = tempfile.mkdtemp(prefix='lzlint-seed-')
     cache = tempfile.mkdtemp(prefix='lzlint-seedcache-')
     reports = []
@@ -31,7 +32,7 @@ def run_seed(sid):
                 shutil.copytree(s, os.path.join(tmp, name))
             elif os.path.exists(s):
                 shutil.copy2(s, os.path.join(tmp, name))
-        r = subprocess.run(['git', 'apply', '--include=src/*', os.path.join(d, 'patch.diff')], cwd=tmp,
+        r = subprocess.run(['git', 'apply', '--include=src/*', patch], cwd=tmp,
                            capture_output=True, text=True)
         if r.returncode != 0:
             return sid, None, 'patch does not apply: ' + r.stderr[-300:]
@@ -57,10 +58,15 @@ def run_seed(sid):
 
 def main():
     ids = sys.argv[1:] or sorted(os.listdir(os.path.join(HERE, 'seeded')))
-    ids = [i for i in ids if os.path.exists(os.path.join(HERE, 'seeded', i, 'patch.diff'))]
+    ids = [i for i in ids if i.endswith('.diff') or os.path.exists(os.path.join(HERE, 'seeded', i, 'patch.diff'))]
     with ThreadPoolExecutor(max_workers=6) as ex:
         res = list(ex.map(run_seed, ids))
     for sid, reports, err in res:
+        if sid.endswith('.diff'):
+            print('%s: %s' % (sid, err or ('MISSED' if not reports else '')))
+            for r in reports or []:
+                print('    %s %s %s' % (r['property'], r['rule'], r['key']))
+            continue
         mp = os.path.join(HERE, 'seeded', sid, 'meta.json')
         meta = json.load(open(mp))
         if reports is None:
